@@ -56,7 +56,7 @@ def r_C04a(root):
     lang = load(root, L); mm = load(root, MM)
     rxsrc = None
     for n in lang.body:
-        if isinstance(n, ast.Assign) and isinstance(n.targets[0], ast.Name) and n.targets[0].id == "STRING" and isinstance(n.value, ast.Call) and n.value.args and isinstance(n.value.args[0], ast.Constant): rxsrc = n.value.args[0].value
+        if isinstance(n, ast.Assign) and isinstance(n.targets[0], ast.Name) and n.targets[0].id == "STRING" and isinstance(n.value, ast.Call) and n.value.args: rxsrc = const_str(n.value.args[0], lang)
     if rxsrc is None: raise AnalysisError("STRING regex not found in lang.py")
     # (1) structure
     try: p = sre.parse(rxsrc)
